@@ -241,9 +241,14 @@ def make_iphist(nlines, preseed, families=None):
     return fn
 
 
+SYSTEM_NAMES = [K.FQDN, "MyHost.Example.org"]
+
+
 def make_hosthist():
     def fn(en):
-        cl = K.make_cleaner(K.Cfg(hostname=True, mac=False))
+        fqdn = SYSTEM_NAMES[en.choice("system_name", len(SYSTEM_NAMES))]
+        domain = fqdn.split(".", 1)[1]
+        cl = K.make_cleaner(K.Cfg(hostname=True, mac=False), fqdn=fqdn)
         hno = cl.obfuscate["hostname"]
         labs = []
         specs = []
@@ -253,17 +258,17 @@ def make_hosthist():
             for ti in range(1 + en.choice("ntok%d" % li, 2)):
                 kind = en.choice("kind%d_%d" % (li, ti), 3)
                 if kind == 0:
-                    t = K.FQDN
+                    t = fqdn
                 elif kind == 1 and labs:
                     t = labs[en.choice("which%d_%d" % (li, ti), len(labs))]
                 else:
-                    t = cat(sstr.fresh_str(en, "lab%d_%d" % (li, ti), 2, "abcxyz"), ".example.org")
+                    t = cat(sstr.fresh_str(en, "lab%d_%d" % (li, ti), 2, "abcxyz" if fqdn == K.FQDN else "abxAB"), "." + domain)
                     labs.append(t)
                 parts.append(("tok", t))
                 parts.append(("glue", " and "))
             specs.append(parts)
         lines = [cat(*[t for k_, t in parts]) for parts in specs]
-        case = lambda mv: {"kind": "hosthist", "lines": [mv.str(x) for x in lines]}  # noqa
+        case = lambda mv: {"kind": "hosthist", "lines": [mv.str(x) for x in lines], "fqdn": fqdn}  # noqa
         en.note_sample(case)
         outs = []
         for ln in lines:
@@ -285,9 +290,62 @@ def make_hosthist():
                 en.must_hold(ok if isinstance(ok, bool) else SBool(ok), "hostname-consistent", case,
                              detail="the output does not carry, for every host, the substitute that mapping() reports for it")
         for e in rep:
-            fs = [f_eq(e["original"], t) if len(e["original"]) == len(t) else False for t in labs] + [e["original"] == K.FQDN if not isinstance(e["original"], SStr) else False]
+            fs = [f_eq(e["original"], t) if len(e["original"]) == len(t) else False for t in labs] + [e["original"] == fqdn if not isinstance(e["original"], SStr) else False]
             ok = f_or(*fs)
             en.must_hold(ok if isinstance(ok, bool) else SBool(ok), "hostname-consistent", case, detail="mapping() lists a host that never occurred")
+    return fn
+
+
+# ------------------------------------------------------------------ O6: IPv6 histories (finite exploration: the addresses are concrete)
+IP6_ADDRS = ["2001:db8:1:2:3:4:5:6", "fe80::5054:ff:fe12:3456", "2001:db8::1", "abcd::1"]
+IP6_SUFFIX = ["", "/64", "/128"]
+
+
+def ip6_history(lines_spec):
+    """lines_spec: list of lines, each a list of (address index, suffix index); returns problems found on whatever cleaner is imported"""
+    cl = K.make_cleaner(K.Cfg(ipv6=True, hostname=False, mac=False))
+    ob = cl.obfuscate["ipv6"]
+    bad = []
+    outs, texts = [], []
+    for toks in lines_spec:
+        ln = "addr " + " via ".join(IP6_ADDRS[a] + IP6_SUFFIX[sfx] for a, sfx in toks) + " up"
+        texts.append(ln)
+        o = cl.clean_content([ln])
+        outs.append(o[0] if o else "")
+    rep = ob.mapping()
+    origs = [e["original"] for e in rep]
+    subs = [e["obfuscated"] for e in rep]
+    used = set(IP6_ADDRS[a] for toks in lines_spec for a, _ in toks)
+    if len(set(origs)) != len(origs):
+        bad.append("mapping() lists an original twice: %s" % origs)
+    if len(set(subs)) != len(subs):
+        bad.append("two originals share a substitute: %s" % rep)
+    extra = [x for x in origs if x not in used]
+    if extra:
+        bad.append("mapping() lists originals that never occurred as an address: %s" % extra)
+    m = dict(zip(origs, subs))
+    for toks, ln, o in zip(lines_spec, texts, outs):
+        try:
+            exp = "addr " + " via ".join(m[IP6_ADDRS[a]] + IP6_SUFFIX[sfx] for a, sfx in toks) + " up"
+        except KeyError as ex:
+            bad.append("replaced original %s is missing from mapping()" % ex)
+            continue
+        if exp != o:
+            bad.append("line %r became %r but the reported mapping gives %r (one address, one substitute, whatever its prefix-length notation)" % (ln, o, exp))
+    return bad
+
+
+def make_ip6hist(nlines):
+    def fn(en):
+        spec = []
+        nl = 1 + en.choice("nlines", nlines)
+        for li in range(nl):
+            ntok = 1 + en.choice("ntok%d" % li, 2)
+            spec.append([(en.choice("a%d_%d" % (li, ti), len(IP6_ADDRS)), en.choice("s%d_%d" % (li, ti), len(IP6_SUFFIX))) for ti in range(ntok)])
+        case = lambda mv: {"kind": "ip6hist", "spec": [[list(t) for t in toks] for toks in spec]}  # noqa
+        en.note_sample(case)
+        bad = ip6_history(spec)
+        en.must_hold(not bad, "ipv6-consistent", case, detail=bad)
     return fn
 
 
@@ -312,6 +370,10 @@ def obligations(tier):
                    bounds={"lines": 3 if thorough else 2, "tokens per line": "1-2", "address families": (IP_FAMILIES if thorough else IP_FAMILIES[:2] + IP_FAMILIES[3:]), "recurrence": "any earlier token may recur", "earlier addresses": [0, 9]},
                    stubs=K.STUBS, outside=outside, encoded=enc[:3] + enc[9:], budget_s=900 if thorough else 200, replay="iphist", check_sample=True,
                    classify=lambda case: signature(case, True)),
+        Obligation("O6-ipv6-history", make_ip6hist(2), ["ipv6-consistent"],
+                   desc="IPv6 addresses (4 concrete addresses in bare, /64 and /128 notation) over 1-2 lines of 1-2 addresses through one cleaner: one substitute per address whatever the notation, output = replacement by mapping(), nothing extra (finite exploration, no symbolic characters)",
+                   bounds={"addresses": IP6_ADDRS, "notations": IP6_SUFFIX, "lines": "1-2", "addresses per line": "1-2"}, stubs=K.STUBS,
+                   outside=["address forms the shipped pattern is documented not to match (e.g. ::1)"], encoded=[IPM.IPv6.parse_line, IPM.IPv6._ip2db, IPM.IPv6.mapping], budget_s=120, replay="iphist", check_sample=True),
         Obligation("O5-hostname-history", make_hosthist(), ["hostname-consistent"], desc="host names of the system's domain over 1-2 lines through one cleaner",
                    bounds={"lines": "1-2", "tokens per line": "1-2", "hosts": "system fqdn, new symbolic 2-letter label, or an earlier one"}, stubs=K.STUBS, outside=outside,
                    encoded=enc[3:6] + enc[9:], budget_s=900 if thorough else 150, replay="hosthist", check_sample=True),
@@ -377,6 +439,8 @@ def _native(case):
         for e in rep:
             if e["original"] not in macs:
                 bad.append("mapping() lists %s which never occurred" % e["original"])
+    elif kind == "ip6hist":
+        bad = ip6_history([[tuple(t) for t in toks] for toks in case["spec"]])
     elif kind in ("iphist", "hosthist"):
         if kind == "iphist":
             cl = K.make_cleaner(K.Cfg(hostname=False, mac=False))
@@ -385,9 +449,9 @@ def _native(case):
                 cl.clean_content(["seen 20.0.0.%d before" % (i + 1)])
             tokrx = r"\d+\.\d+\.\d+\.\d+"
         else:
-            cl = K.make_cleaner(K.Cfg(hostname=True, mac=False))
+            cl = K.make_cleaner(K.Cfg(hostname=True, mac=False), fqdn=case.get("fqdn", K.FQDN))
             ob = cl.obfuscate["hostname"]
-            tokrx = r"[a-z]+\.example\.org"
+            tokrx = r"[a-zA-Z]+\." + _re.escape(case.get("fqdn", K.FQDN).split(".", 1)[1])
         outs = []
         for ln in case["lines"]:
             o = cl.clean_content([ln])
@@ -411,7 +475,7 @@ def _native(case):
                 continue
             if exp != o:
                 bad.append("line %r became %r but the reported mapping gives %r" % (ln, o, exp))
-        extra = [x for x in origs if x not in seen and not x.startswith("20.0.0.") and x != K.FQDN]
+        extra = [x for x in origs if x not in seen and not x.startswith("20.0.0.") and x != case.get("fqdn", K.FQDN)]
         if extra:
             bad.append("mapping() lists originals that never occurred: %s" % extra)
     return bad
